@@ -81,3 +81,21 @@ package txnlock
 //@   loop 2 invariant infos: forall t uint64 :: inDom(txnInfos, t) ==> txnInfos[t] == reported(t)
 //@   at call(SendReq) assert outcome: arg_req != nil && arg_regionID == loc && forall i int :: 0 <= i && i < len(arg_req.Req.(*kvrpcpb.ResolveLockRequest).TxnInfos) ==>
 //@       arg_req.Req.(*kvrpcpb.ResolveLockRequest).TxnInfos[i].Status == reported(arg_req.Req.(*kvrpcpb.ResolveLockRequest).TxnInfos[i].Txn)
+
+// Async-commit recovery: the commit timestamp accumulated over the secondaries is the largest min-commit-ts of any lock
+// seen (never below the primary's, which seeds it), unless a lock is missing - then it is the commit timestamp the store
+// reported for the missing lock's transaction (zero = rolled back), which must not be below what was accumulated and must
+// agree with every later report.
+//@ func (*asyncResolveData) addKeys
+//@   prop C04
+//@   may-panic
+//@   loop 1 invariant idx: -1 <= rangeindex && rangeindex < len(locks)
+//@   loop 1 invariant mono: data.commitTs >= old(data.commitTs) && data.missingLock == old(data.missingLock)
+//@   loop 1 invariant frozen: data.missingLock ==> data.commitTs == old(data.commitTs)
+//@   loop 1 invariant covers: !data.missingLock ==> forall i int :: 0 <= i && i <= rangeindex && locks[i] != nil ==> locks[i].MinCommitTs <= data.commitTs
+//@   loop 1 invariant from: data.commitTs == old(data.commitTs) || exists i int :: 0 <= i && i <= rangeindex && locks[i] != nil && data.commitTs == locks[i].MinCommitTs
+//@   ensures present: result == nil && len(locks) >= expected && !old(data.missingLock) ==> !data.missingLock && data.commitTs >= old(data.commitTs) &&
+//@       (forall i int :: 0 <= i && i < len(locks) && locks[i] != nil ==> locks[i].MinCommitTs <= data.commitTs) &&
+//@       (data.commitTs == old(data.commitTs) || exists i int :: 0 <= i && i < len(locks) && locks[i] != nil && data.commitTs == locks[i].MinCommitTs)
+//@   ensures missing: result == nil && len(locks) < expected ==> data.missingLock && data.commitTs == commitTS && (!old(data.missingLock) && commitTS != 0 ==> commitTS >= old(data.commitTs)) && (old(data.missingLock) ==> old(data.commitTs) == commitTS)
+//@   ensures frozen: result == nil && old(data.missingLock) ==> data.commitTs == old(data.commitTs) && data.missingLock
